@@ -153,6 +153,7 @@ type knode struct {
 	up      bool
 	left    bool        // departed (removed while running, or left): reported as x<j>
 	ready   chan string // the peer's pinset at the instant Ready() fired
+	started time.Time   // when its current Cluster was created (its watchPeers ticker starts then)
 }
 
 type kworld struct {
@@ -162,6 +163,7 @@ type kworld struct {
 	dir     string
 	retries int
 	repin   bool
+	watch   time.Duration // peer_watch_interval (0 = 500 ms)
 	secret  []byte
 	mu      sync.Mutex
 	nodes   []*knode
@@ -249,6 +251,9 @@ func (w *kworld) ensureHost(n *knode) error {
 	cfg.ReplicationFactorMax = -1
 	cfg.MonitorPingInterval = time.Second
 	cfg.PeerWatchInterval = 500 * time.Millisecond
+	if w.watch > 0 {
+		cfg.PeerWatchInterval = w.watch
+	}
 	cfg.DisableRepinning = !w.repin
 	cfg.MDNSInterval = 0
 	cfg.SetBaseDir(n.dir)
@@ -324,6 +329,7 @@ func (w *kworld) startNode(n *knode, staging bool) error {
 	n.up = true
 	n.left = false
 	w.mu.Unlock()
+	n.started = time.Now()
 	cl, err := ipfscluster.NewCluster(context.Background(), n.h, n.dht, n.cfg, store, n.rec, nil,
 		common.NewFakeIPFS(), tracker, n.mon, descendalloc.NewAllocator(), []ipfscluster.Informer{&spaceInformer{n}}, tracer)
 	if err != nil {
